@@ -61,7 +61,7 @@ def cases(tier, seed):
     # objects made by factories: every core is its own variable (also when mode sizes repeat)
     for kind, N in (('ones', [2, 2]), ('ones', [3, 3, 2]), ('zeros', [2, 2]), ('zeros', [2, 3, 2]), ('eye', [2, 2]), ('eye', [2, 3])):
         cs.append({'scen': 'ad_factory', 's': {'kind': kind, 'N': N}})
-    for sin, sout, rank, batch in [([2], [2], [1, 1], []), ([2, 2], [1, 2], [1, 2, 1], [2]), ([2, 1], [2, 2], [1, 2, 1], [])] + ([([2, 2, 2], [1, 2, 1], [1, 2, 2, 1], [2, 1])] if th else []):
+    for sin, sout, rank, batch in [([2], [2], [1, 1], []), ([2, 2], [1, 2], [1, 2, 1], [2]), ([2, 1], [2, 2], [1, 2, 1], []), ([1, 3], [1, 2], [1, 1, 1], [2]), ([2, 1, 2], [2, 1, 1], [1, 1, 1, 1], [])] + ([([2, 2, 2], [1, 2, 1], [1, 2, 2, 1], [2, 1])] if th else []):
         cs.append({'scen': 'ad_layer', 's': {'size_in': sin, 'size_out': sout, 'rank': rank, 'batch': batch}})
         cs.append({'scen': 'ad_layer', 's': {'size_in': sin, 'size_out': sout, 'rank': rank, 'batch': batch, 'eval': True}})
         d_ = len(sin)
